@@ -152,7 +152,7 @@ class C15(Prop):
 
             def _run_once(self):
                 ready = self._ready
-                idx = [i for i, h in enumerate(ready) if type(h._callback).__name__.startswith("Task")]
+                idx = [i for i in range(len(ready)) if type(ready[i]._callback).__name__.startswith("Task")]  # no iteration: threads may append
                 if len(idx) > 1:
                     hs = [ready[i] for i in idx]
                     self._sfv_rng.shuffle(hs)
